@@ -28,5 +28,6 @@ Definition run (c : sx) : sx :=
   | L [A 34; arg] => run_wassert_applies arg
   | L [A 35; arg] => run_wlayer_histories arg
   | L [A 36; arg] => run_wdiagram arg
+  | L [A 37; arg] => run_la_histories_lenient arg
   | _ => sx_err
   end.
